@@ -3,6 +3,7 @@
   `hatch_line` loop as pairing of consecutive crossings, and the sweep invariant of `hatch`.
 -/
 import LyonVerif.Model.Algo.Hatch
+import LyonVerif.Model.Algo.HatchCurves
 import LyonVerif.Lemmas.Field
 
 set_option linter.unusedSectionVars false
@@ -710,6 +711,80 @@ theorem closed_even (c s y : K) (sps : List (P K × List (P K))) :
   unfold spansB at this hp
   rw [this]
   omega
+
+/-! ## Curved input: the flattened stream of closed sub-paths is a stream of closed sub-paths -/
+
+/-- one edge command of a curved sub-path -/
+inductive CSeg (α : Type) where
+  | line (p : P α)
+  | quad (c p : P α)
+  | cubic (c1 c2 p : P α)
+
+def CSeg.toEv {α : Type} : CSeg α → CEv α
+  | .line p => .line p
+  | .quad c p => .quad c p
+  | .cubic c1 c2 p => .cubic c1 c2 p
+
+/-- `begin p₀, (line_to | quadratic_bezier_to | cubic_bezier_to)*, end` -/
+def csubpathEvents {α : Type} (sp : P α × List (CSeg α)) : List (CEv α) :=
+  .begin sp.1 :: (sp.2.map CSeg.toEv ++ [.close])
+
+def cpathEvents {α : Type} (sps : List (P α × List (CSeg α))) : List (CEv α) :=
+  sps.flatMap csubpathEvents
+
+section curved
+variable [FlatConst K]
+
+theorem flatten_segs (tol : K) (tail : List (CEv K)) :
+    ∀ (segs : List (CSeg K)) (cur : P K) (pe : List (PEv K)),
+      flattenEvents tol (segs.map CSeg.toEv ++ tail) cur = some pe →
+      ∃ (ps : List (P K)) (cur' : P K) (pe' : List (PEv K)),
+        pe = ps.map PEv.line ++ pe' ∧ flattenEvents tol tail cur' = some pe'
+  | [], cur, pe, h => ⟨[], cur, pe, by simp, by simpa using h⟩
+  | sg :: segs, cur, pe, h => by
+    cases sg with
+    | line p =>
+      simp only [List.map_cons, List.cons_append, CSeg.toEv, flattenEvents, Option.map_eq_some_iff] at h
+      obtain ⟨pe1, h1, rfl⟩ := h
+      obtain ⟨ps, cur', pe', rfl, h3⟩ := flatten_segs tol tail segs p pe1 h1
+      exact ⟨p :: ps, cur', pe', by simp, h3⟩
+    | quad c p =>
+      simp only [List.map_cons, List.cons_append, CSeg.toEv, flattenEvents] at h
+      split at h
+      · simp at h
+      · rename_i fs _
+        simp only [Option.map_eq_some_iff] at h
+        obtain ⟨pe1, h1, rfl⟩ := h
+        obtain ⟨ps, cur', pe', rfl, h3⟩ := flatten_segs tol tail segs _ pe1 h1
+        exact ⟨FlatSeg.points fs ++ ps, cur', pe', by simp [curveLines], h3⟩
+    | cubic c1 c2 p =>
+      simp only [List.map_cons, List.cons_append, CSeg.toEv, flattenEvents] at h
+      split at h
+      · simp at h
+      · rename_i fs _
+        simp only [Option.map_eq_some_iff] at h
+        obtain ⟨pe1, h1, rfl⟩ := h
+        obtain ⟨ps, cur', pe', rfl, h3⟩ := flatten_segs tol tail segs _ pe1 h1
+        exact ⟨FlatSeg.points fs ++ ps, cur', pe', by simp [curveLines], h3⟩
+
+theorem flatten_closed (tol : K) :
+    ∀ (csps : List (P K × List (CSeg K))) (cur : P K) (pe : List (PEv K)),
+      flattenEvents tol (cpathEvents csps) cur = some pe → ∃ sps, pe = pathEvents sps
+  | [], cur, pe, h => ⟨[], by simpa [cpathEvents, flattenEvents, pathEvents] using h.symm⟩
+  | sp :: csps, cur, pe, h => by
+    have hsplit : cpathEvents (sp :: csps) =
+        .begin sp.1 :: (sp.2.map CSeg.toEv ++ (.close :: cpathEvents csps)) := by
+      simp [cpathEvents, csubpathEvents]
+    rw [hsplit] at h
+    simp only [flattenEvents, Option.map_eq_some_iff] at h
+    obtain ⟨pe1, h1, rfl⟩ := h
+    obtain ⟨ps, cur', pe', rfl, h3⟩ := flatten_segs tol _ sp.2 sp.1 pe1 h1
+    simp only [flattenEvents, Option.map_eq_some_iff] at h3
+    obtain ⟨pe2, h4, rfl⟩ := h3
+    obtain ⟨sps, rfl⟩ := flatten_closed tol csps cur' pe2 h4
+    exact ⟨(sp.1, ps) :: sps, by simp [pathEvents, subpathEvents]⟩
+
+end curved
 
 /-! ## Row positions: `y` is the running sum of the offsets `next_offset` returned -/
 
